@@ -278,7 +278,7 @@ class _R:
         base = cur_indent if cur_indent >= 0 else 0
         col = base + n
         first_content = next((l for l in lines if l != ""), None)
-        need_indicator = first_content is None or first_content[0] == " " or (lines and lines[0] == "" and rng.chance(1, 2))
+        need_indicator = first_content is None or first_content[0] in " \t" or (lines and lines[0] == "" and rng.chance(1, 2))
         if not need_indicator and rng.chance(1, 6):
             need_indicator = True
         ind = str(n) if need_indicator else ""
@@ -617,8 +617,6 @@ def block_text_ok(text):
         if not _printable(ch) or ch in "\x85\u2028\u2029\ufeff\r":
             return False
     for l in text.split("\n"):
-        if l and l[0] == "\t":
-            return False
         if l and l.strip(" ") == "":
             return False      # a line of spaces only is ambiguous with an (over-)indented blank line
     return True
@@ -720,7 +718,8 @@ def _texts():
                          "---", "..."]),
         st.characters(exclude_categories=("Cs",))), max_size=8).map("".join)
     lines = st.lists(st.one_of(words, words, st.just(""), words.map(lambda w: "  " + w), words.map(lambda w: " " + w),
-                               words.map(lambda w: w + "  ")), min_size=1, max_size=5).map("\n".join)
+                               words.map(lambda w: w + "  "), words.map(lambda w: "\t" + w), words.map(lambda w: w + "\t")),
+                     min_size=1, max_size=5).map("\n".join)
     trailing = st.tuples(lines, st.sampled_from(["", "\n", "\n", "\n\n", "\n\n\n"])).map("".join)
     return st.one_of(st.sampled_from(PLAIN_VOCAB), st.sampled_from(PLAIN_VOCAB), words, generic, lines, trailing, st.just(""))
 
